@@ -285,9 +285,20 @@ func pidKind(pid string) string {
 	return "ok"
 }
 
+func otherEffect(e v1.TaintEffect) v1.TaintEffect {
+	if e == v1.TaintEffectNoExecute {
+		return v1.TaintEffectPreferNoSchedule
+	}
+	return v1.TaintEffectNoExecute
+}
+
 func (w *World) taintValue(t Taint, id string) string {
-	if !t.Ok {
-		return "not-a-number-" + id
+	if !t.Ok { // any value that is not a decimal integer is unreadable; some of them look like numbers
+		h := 0
+		for _, c := range id {
+			h = h*37 + int(c)
+		}
+		return []string{"not-a-number-" + id, "NaN", "1e3", "1.5", "Inf", " 1700000000", "0x10", "-"}[h%8]
 	}
 	if t.At <= Never {
 		return "0"
@@ -319,13 +330,16 @@ func (w *World) MakeNode(g, id string, o NodeObj) *v1.Node {
 		if eff == "" {
 			eff = v1.TaintEffectNoSchedule
 		}
+		if h%2 == 1 { // put there by someone else, or under an earlier configuration: another effect than the group's
+			eff = otherEffect(eff)
+		}
 		n.Spec.Taints = append(n.Spec.Taints, v1.Taint{Key: TaintKey, Value: w.taintValue(o.Taint, id), Effect: eff})
 	}
 	if h%3 == 0 {
 		n.Spec.Taints = append(n.Spec.Taints, v1.Taint{Key: "foreign/b", Value: "y", Effect: v1.TaintEffectNoSchedule})
 	}
-	if o.Nodel {
-		n.Annotations[NoDeleteKey] = "keep me"
+	if o.Nodel { // any non-empty value protects, also one that is only white space
+		n.Annotations[NoDeleteKey] = []string{"keep me", " ", "true", "\t "}[h%4]
 	} else if h%5 == 0 {
 		n.Annotations[NoDeleteKey] = "" // empty value = unprotected
 	}
@@ -907,7 +921,11 @@ func (w *World) ExtTaint(id, kind string, at int) bool {
 			t.At = FarPast
 		}
 		// at the front, so that foreign taints after it move when it is removed
-		n.Spec.Taints = append([]v1.Taint{{Key: TaintKey, Value: w.taintValue(t, id), Effect: v1.TaintEffectNoSchedule}}, n.Spec.Taints...)
+		eff := v1.TaintEffectNoSchedule
+		if (len(id)+at)%2 == 0 {
+			eff = v1.TaintEffectNoExecute
+		}
+		n.Spec.Taints = append([]v1.Taint{{Key: TaintKey, Value: w.taintValue(t, id), Effect: eff}}, n.Spec.Taints...)
 	})
 }
 
